@@ -1203,3 +1203,448 @@ Proof.
     split; [apply LoopInv_write; assumption|].
     intros addr id h Hin. destruct (Hc _ _ _ Hin) as [[]|Hex]. exact Hex.
 Qed.
+
+(* ---------- C01 for x/margin: what the module account holds beyond what the pool records never changes ---------- *)
+(* the in-memory pool's recorded native / external amounts (balance + custody) against the module account *)
+Definition Gn (c : mctx) : Z := bal (ms_bank (c_s c)) CLP_MODULE ROWAN - (q_nb (c_pool c) + q_nc (c_pool c)).
+Definition Ge (c : mctx) : Z := bal (ms_bank (c_s c)) CLP_MODULE (c_asset c) - (q_eb (c_pool c) + q_ec (c_pool c)).
+Definition gap_eq (c c' : mctx) : Prop :=
+  Gn c' = Gn c /\ Ge c' = Ge c /\ c_asset c' = c_asset c /\
+  (forall d, d <> ROWAN -> d <> c_asset c -> bal (ms_bank (c_s c')) CLP_MODULE d = bal (ms_bank (c_s c)) CLP_MODULE d).
+
+Lemma gap_eq_refl c : gap_eq c c.
+Proof. unfold gap_eq. auto. Qed.
+Lemma gap_eq_trans c1 c2 c3 : gap_eq c1 c2 -> gap_eq c2 c3 -> gap_eq c1 c3.
+Proof.
+  unfold gap_eq. intros (A1 & A2 & A3 & A4) (B1 & B2 & B3 & B4). repeat split; try congruence.
+  intros d H1 H2. rewrite B4 by congruence. apply A4; assumption.
+Qed.
+
+(* steps that touch neither the bank nor the pool's balances and custody *)
+Lemma gap_eq_same c c' :
+  ms_bank (c_s c') = ms_bank (c_s c) -> c_asset c' = c_asset c ->
+  q_nb (c_pool c') = q_nb (c_pool c) -> q_nc (c_pool c') = q_nc (c_pool c) ->
+  q_eb (c_pool c') = q_eb (c_pool c) -> q_ec (c_pool c') = q_ec (c_pool c) -> gap_eq c c'.
+Proof. intros Hb Ha E1 E2 E3 E4. unfold gap_eq, Gn, Ge. rewrite Hb, Ha, E1, E2, E3, E4. auto. Qed.
+
+Lemma set_pool_gap c c' u : set_pool c = (c', Ok u) -> gap_eq c c'.
+Proof. intros H. apply set_pool_ok in H. subst. apply gap_eq_same; reflexivity. Qed.
+Lemma upd_mtp_gap f c c' u : upd_mtp f c = (c', Ok u) -> gap_eq c c'.
+Proof. intros H. apply upd_mtp_ok in H. destruct H as (m & _ & ->). apply gap_eq_same; reflexivity. Qed.
+Lemma set_mtp_gap c c' u : set_mtp c = (c', Ok u) -> gap_eq c c'.
+Proof. unfold set_mtp. intros H. apply modc_ok in H. subst. destruct (c_id c =? 0); apply gap_eq_same; reflexivity. Qed.
+Lemma destroy_mtp_gap c c' u : destroy_mtp c = (c', Ok u) -> gap_eq c c'.
+Proof. intros H. apply destroy_mtp_ok in H. destruct H as (_ & ->). apply gap_eq_same; reflexivity. Qed.
+
+(* coins leaving the module account: the gap drops by x in that denom unless the pool's books drop with it *)
+Lemma bank_out_effect to d x c c' u : bank_send CLP_MODULE to d x c = (c', Ok u) -> to <> CLP_MODULE ->
+  0 <= x /\ (forall d', bal (ms_bank (c_s c')) CLP_MODULE d' = bal (ms_bank (c_s c)) CLP_MODULE d' - (if d' =? d then x else 0)) /\
+  c_pool c' = c_pool c /\ c_asset c' = c_asset c.
+Proof.
+  intros H Hto. apply bank_send_ok in H. destruct H as (b & Hs & ->). apply send_effect in Hs. destruct Hs as (Hx & Hb & _).
+  split; [exact Hx|]. split; [|split; reflexivity].
+  intros d'. cbn -[bal]. rewrite Hb. rewrite Z.eqb_refl. destruct (Z.eqb_spec CLP_MODULE to); [congruence|]. cbn [andb].
+  destruct (d' =? d); lia.
+Qed.
+
+Lemma take_fund_payment_effect amount asset pct fund c c' t :
+  take_fund_payment amount asset pct fund c = (c', Ok t) -> fund <> CLP_MODULE ->
+  0 <= t /\ (forall d', bal (ms_bank (c_s c')) CLP_MODULE d' = bal (ms_bank (c_s c)) CLP_MODULE d' - (if d' =? asset then t else 0)) /\
+  c_pool c' = c_pool c /\ c_asset c' = c_asset c.
+Proof.
+  unfold take_fund_payment. intros H Hf. pm H as c1 tk E1. apply lift_ok in E1. destruct E1 as (-> & Et).
+  pm H as c2 u E2. apply ret_ok in H. destruct H as (-> & ->).
+  assert (Ht0 : 0 <= tk) by (repeat inv1 Et; uints; lia).
+  destruct (Z.eqb_spec tk 0) as [->|Hne].
+  - apply ret_ok in E2. destruct E2 as (-> & _). split; [lia|]. split; [|split; reflexivity].
+    intros d'. destruct (d' =? asset); lia.
+  - destruct (bank_out_effect _ _ _ _ _ _ E2 Hf) as (_ & Hb & Hp & Ha). auto.
+Qed.
+
+Lemma upd_mtp_gap_any f c c' o : upd_mtp f c = (c', o) -> gap_eq c c'.
+Proof.
+  intros H. apply upd_mtp_any in H. destruct (f (c_mtp c)); destruct H as (-> & _); try apply gap_eq_refl. apply gap_eq_same; reflexivity.
+Qed.
+
+Lemma take_fund_payment_err amount asset pct fund c c' e : take_fund_payment amount asset pct fund c = (c', Err e) -> c' = c.
+Proof.
+  unfold take_fund_payment. intros H. pma H as c1 o1 E1. apply lift_any in E1. destruct E1 as (-> & ->).
+  match type of H with match ?x with _ => _ end => destruct x as [tk|e1|] end; [|destruct H; assumption|destruct H; discriminate].
+  pma H as c2 o2 E2. destruct (tk =? 0).
+  - unfold ret in E2. injection E2 as <- <-. unfold ret in H. inversion H.
+  - apply bank_send_any in E2. destruct (send _ _ _ _ _); destruct E2 as (-> & ->); [unfold ret in H; inversion H|destruct H; assumption].
+Qed.
+
+(* the custody side of the pool: recorded amounts on the side that holds the position's custody *)
+Lemma incremental_gap_any i c c' o :
+  incremental_interest_payment i c = (c', o) -> on_pool (c_asset c) (c_mtp c) ->
+  mp_incr_fund (ms_params (c_s c)) <> CLP_MODULE ->
+  match o with Panic => True | _ => gap_eq c c' end.
+Proof.
+  unfold incremental_interest_payment. intros H Hon Hfund. pmg H.
+  pma H as c1 o1 E1. apply lift_any in E1. destruct E1 as (-> & ->).
+  match type of H with match ?x with _ => _ end => destruct x as [interest|e|] end; [|destruct H as (-> & ->); apply gap_eq_refl|destruct H as (_ & ->); exact I].
+  pma H as c2 o2 E2. apply lift_any in E2. destruct E2 as (-> & ->).
+  match type of H with match ?x with _ => _ end => destruct x as [ipc|e|] end; [|destruct H as (-> & ->); apply gap_eq_refl|destruct H as (_ & ->); exact I].
+  pma H as c3 o3 E3. pose proof (upd_mtp_gap_any _ _ _ _ E3) as G3.
+  destruct o3 as [u3|e|]; [|destruct H as (-> & ->); exact G3|destruct H as (_ & ->); exact I].
+  pma H as c4 o4 E4.
+  assert (G4 : match o4 with Panic => True | _ => gap_eq c3 c4 end).
+  { destruct (m_cust_amt (c_mtp c) <? ipc).
+    - pma E4 as c5 o5 E5. apply lift_any in E5. destruct E5 as (-> & ->).
+      match type of E4 with match ?x with _ => _ end => destruct x as [cac|e|] end; [|destruct E4 as (-> & ->); apply gap_eq_refl|destruct E4 as (_ & ->); exact I].
+      pma E4 as c6 o6 E6. apply lift_any in E6. destruct E6 as (-> & ->).
+      match type of E4 with match ?x with _ => _ end => destruct x as [un|e|] end; [|destruct E4 as (-> & ->); apply gap_eq_refl|destruct E4 as (_ & ->); exact I].
+      pma E4 as c7 o7 E7. pose proof (upd_mtp_gap_any _ _ _ _ E7) as G7.
+      destruct o7; [unfold ret in E4; injection E4 as <- <-; exact G7|destruct E4 as (-> & ->); exact G7|destruct E4 as (_ & ->); exact I].
+    - unfold ret in E4. injection E4 as <- <-. apply gap_eq_refl. }
+  destruct o4 as [[interest' ipc']|e|]; [|destruct H as (-> & ->); eapply gap_eq_trans; eassumption|destruct H as (_ & ->); exact I].
+  pose proof (gap_eq_trans _ _ _ G3 G4) as G34.
+  pma H as c5 o5 E5. pose proof (upd_mtp_gap_any _ _ _ _ E5) as G5.
+  destruct o5 as [u5|e|]; [|destruct H as (-> & ->); eapply gap_eq_trans; eassumption|destruct H as (_ & ->); exact I].
+  pose proof (gap_eq_trans _ _ _ G34 G5) as G05.
+  pma H as c6 o6 E6.
+  destruct o6 as [take|e|]; [|destruct H as (-> & ->); apply take_fund_payment_err in E6; subst; exact G05|destruct H as (_ & ->); exact I].
+  (* params are those of c: only the position changed so far *)
+  assert (Hpar : ms_params (c_s c) = ms_params (c_s c) ) by reflexivity.
+  destruct (take_fund_payment_effect _ _ _ _ _ _ _ E6 Hfund) as (Ht0 & Hb6 & Hp6 & Ha6).
+  pma H as c7 o7 E7. apply lift_any in E7. destruct E7 as (-> & ->).
+  match type of H with match ?x with _ => _ end => destruct x as [actual|e|] eqn:Eact end; [|destruct H as (-> & ->); exfalso; unfold uint_sub, ck_uint in Eact; destruct (fits_uint _); discriminate|destruct H as (_ & ->); exact I].
+  apply uint_sub_ok in Eact. destruct Eact as (-> & _).
+  pma H as c8 o8 E8. apply upd_pool_any in E8. cbn beta in E8.
+  (* the sides *)
+  assert (A3 : c_asset c5 = c_asset c) by apply G05.
+  assert (Hcases : m_cust_asset (c_mtp c) = ROWAN \/ m_cust_asset (c_mtp c) = c_asset c).
+  { destruct Hon as (_ & [(_ & H2)|(H2 & _)]); auto. }
+  assert (Hane : c_asset c <> ROWAN) by apply Hon.
+  assert (Hfin : forall p8, c8 = c6 <| c_pool := p8 |> -> o8 = Ok tt -> gap_eq c5 (c6 <| c_pool := p8 |>) ->
+                 match o with Panic => True | _ => gap_eq c c' end).
+  { intros p8 -> -> GB.
+    pma H as c9 o9 E9. assert (o9 = Ok tt) by (unfold set_mtp, modc in E9; congruence). subst o9. pose proof (set_mtp_gap _ _ _ E9) as G9.
+    pma H as c10 o10 E10. assert (o10 = Ok tt) by (unfold set_pool, modc in E10; congruence). subst o10. pose proof (set_pool_gap _ _ _ E10) as G10.
+    unfold ret in H. injection H as <- <-.
+    eapply gap_eq_trans; [exact G05|]. eapply gap_eq_trans; [exact GB|]. eapply gap_eq_trans; [exact G9|exact G10]. }
+  destruct (Z.eqb_spec (m_cust_asset (c_mtp c)) ROWAN) as [Er|Er].
+  - match type of E8 with match ?x with _ => _ end => destruct x as [p8|e|] eqn:Ep8 end;
+      [|exfalso; unfold uint_sub, uint_add, ck_uint in Ep8;
+         repeat match type of Ep8 with context [fits_uint ?x] => destruct (fits_uint x); cbn [bind] in Ep8 end; discriminate
+       |destruct E8 as (_ & ->); destruct H as (_ & ->); exact I].
+    destruct E8 as (-> & ->). repeat inv1 Ep8. uints. subst.
+    eapply Hfin; [reflexivity|reflexivity|].
+    unfold gap_eq, Gn, Ge. cbn -[bal]. rewrite Ha6, !Hb6, Hp6, Er, A3.
+    destruct (Z.eqb_spec ROWAN ROWAN); [|congruence]. destruct (Z.eqb_spec (c_asset c) ROWAN); [congruence|].
+    split; [lia|]. split; [lia|]. split; [reflexivity|].
+    intros d Hd1 Hd2. rewrite Hb6, Er. destruct (Z.eqb_spec d ROWAN); [congruence|]. lia.
+  - assert (Ea : m_cust_asset (c_mtp c) = c_asset c) by tauto.
+    match type of E8 with match ?x with _ => _ end => destruct x as [p8|e|] eqn:Ep8 end;
+      [|exfalso; unfold uint_sub, uint_add, ck_uint in Ep8;
+         repeat match type of Ep8 with context [fits_uint ?x] => destruct (fits_uint x); cbn [bind] in Ep8 end; discriminate
+       |destruct E8 as (_ & ->); destruct H as (_ & ->); exact I].
+    destruct E8 as (-> & ->). repeat inv1 Ep8. uints. subst.
+    eapply Hfin; [reflexivity|reflexivity|].
+    unfold gap_eq, Gn, Ge. cbn -[bal]. rewrite Ha6, !Hb6, Hp6, Ea, A3.
+    destruct (Z.eqb_spec ROWAN (c_asset c)); [congruence|]. destruct (Z.eqb_spec (c_asset c) (c_asset c)); [|congruence].
+    split; [lia|]. split; [lia|]. split; [reflexivity|].
+    intros d Hd1 Hd2. rewrite Hb6, Ea. destruct (Z.eqb_spec d (c_asset c)); [congruence|]. lia.
+Qed.
+
+Lemma custody_move_gap (out : bool) c c' u :
+  (if out then take_out_custody c else take_in_custody c) = (c', Ok u) -> gap_eq c c'.
+Proof.
+  destruct out; unfold take_out_custody, take_in_custody; intros H; pmg H; pm H as c1 u1 E1;
+  apply upd_pool_ok in E1; destruct E1 as (p & Hp & ->); apply set_pool_gap in H;
+  (eapply gap_eq_trans; [|exact H]);
+  destruct (m_cust_asset (c_mtp c) =? ROWAN); repeat inv1 Hp; uints; subst;
+  unfold gap_eq, Gn, Ge; cbn -[bal]; repeat split; try lia; auto.
+Qed.
+
+Lemma handle_interest_gap i c c' fin :
+  handle_interest_payment i c = (c', Ok fin) -> on_pool (c_asset c) (c_mtp c) ->
+  mp_incr_fund (ms_params (c_s c)) <> CLP_MODULE -> gap_eq c c'.
+Proof.
+  unfold handle_interest_payment. intros H Hon Hf. pmg H. destruct (mp_incr (ms_params (c_s c))).
+  - destruct (incremental_interest_payment i c) as [c1 o1] eqn:E.
+    pose proof (incremental_gap_any _ _ _ _ E Hon Hf) as G. destruct o1; inversion H; subst; exact G.
+  - pm H as c1 u1 E1. apply upd_mtp_gap in E1. apply ret_ok in H. destruct H as (-> & _). exact E1.
+Qed.
+
+Lemma add_block_interest_gap fin c c' u : add_block_interest fin c = (c', Ok u) -> gap_eq c c'.
+Proof.
+  unfold add_block_interest. intros H. pmg H. apply upd_pool_ok in H. destruct H as (p & Hp & ->).
+  destruct (m_coll_asset (c_mtp c) =? ROWAN); repeat inv1 Hp; subst; apply gap_eq_same; reflexivity.
+Qed.
+
+(* facts every step keeps: the position's assets, the pool asset, the parameters *)
+Definition stable (c c' : mctx) : Prop :=
+  m_coll_asset (c_mtp c') = m_coll_asset (c_mtp c) /\ m_cust_asset (c_mtp c') = m_cust_asset (c_mtp c) /\
+  c_asset c' = c_asset c /\ c_addr c' = c_addr c /\ ms_params (c_s c') = ms_params (c_s c).
+
+Lemma keeps_stable li c c' : Keeps li c c' -> stable c c'.
+Proof. intros (_ & (K1&K2&_&Ka&Kaddr&_&Kp&_) & _). unfold stable. auto. Qed.
+
+Lemma mid_epoch_gap c c' u :
+  mid_epoch_interest c = (c', Ok u) -> on_pool (c_asset c) (c_mtp c) -> mp_incr_fund (ms_params (c_s c)) <> CLP_MODULE -> gap_eq c c'.
+Proof.
+  unfold mid_epoch_interest. intros H Hon Hf. pmg H. destruct (0 <? epoch_position (c_s c)).
+  - pm H as c1 i E1. apply lift_ok in E1. destruct E1 as (-> & _).
+    pm H as c2 fin E2. apply handle_interest_gap in E2; [|exact Hon|exact Hf].
+    pm H as c3 u3 E3. apply add_block_interest_gap in E3.
+    pmg H. pm H as c4 h E4. apply lift_ok in E4. destruct E4 as (-> & _).
+    apply upd_mtp_gap in H. eapply gap_eq_trans; [exact E2|]. eapply gap_eq_trans; eassumption.
+  - apply ret_ok in H. destruct H as (-> & _). apply gap_eq_refl.
+Qed.
+
+(* Repay: what leaves the module account (to the owner and to the fund) is what the pool's balance is reduced by *)
+Lemma repay_gap r tf c c' u :
+  repay r tf c = (c', Ok u) -> on_pool (c_asset c) (c_mtp c) ->
+  mp_fc_fund (ms_params (c_s c)) <> CLP_MODULE -> c_addr c <> CLP_MODULE -> gap_eq c c'.
+Proof.
+  unfold repay. intros H Hon Hfund Howner. pmg H.
+  pm H as c1 h E1. apply lift_ok in E1. destruct E1 as (-> & _).
+  pm H as c2 u2 E2. apply upd_mtp_ok in E2. destruct E2 as (m2 & Em2 & ->). injection Em2 as <-.
+  set (cA := c <| c_mtp := (c_mtp c) <| m_health := h |> |>) in *.
+  pm H as c3 owe E3. apply lift_ok in E3. destruct E3 as (-> & _).
+  pm H as c4 tr E4. apply lift_ok in E4. destruct E4 as (-> & Etr). destruct tr as [[ret_amt debtP] debtI].
+  assert (Hret0 : 0 <= ret_amt).
+  { destruct (r <? m_liab (c_mtp c)); [repeat inv1 Etr; lia|]. destruct (r <? owe); [repeat inv1 Etr; lia|]. repeat inv1 Etr. uints. lia. }
+  pm H as c5 u5 E5.
+  (* the coins paid out: exactly ret_amt of the collateral asset *)
+  assert (Hpay : (forall d', bal (ms_bank (c_s c5)) CLP_MODULE d' = bal (ms_bank (c_s cA)) CLP_MODULE d' - (if d' =? m_coll_asset (c_mtp c) then ret_amt else 0)) /\
+                 c_pool c5 = c_pool cA /\ c_asset c5 = c_asset cA).
+  { destruct (Z.eqb_spec ret_amt 0) as [->|Hne].
+    - apply ret_ok in E5. destruct E5 as (-> & _). split; [intros d'; destruct (d' =? _); lia|auto].
+    - pm E5 as c6 actual E6.
+      assert (H6 : exists take, 0 <= take /\ actual = ret_amt - take /\
+                (forall d', bal (ms_bank (c_s c6)) CLP_MODULE d' = bal (ms_bank (c_s cA)) CLP_MODULE d' - (if d' =? m_coll_asset (c_mtp c) then take else 0)) /\
+                c_pool c6 = c_pool cA /\ c_asset c6 = c_asset cA).
+      { destruct tf.
+        - pm E6 as c7 take E7. destruct (take_fund_payment_effect _ _ _ _ _ _ _ E7 Hfund) as (Ht0 & Hb7 & Hp7 & Ha7).
+          apply lift_ok in E6. destruct E6 as (-> & Eact). apply uint_sub_ok in Eact. destruct Eact as (-> & _).
+          exists take. auto.
+        - apply ret_ok in E6. destruct E6 as (-> & ->). exists 0. split; [lia|]. split; [lia|].
+          split; [intros d'; destruct (d' =? _); lia|auto]. }
+      destruct H6 as (take & Ht0 & -> & Hb6 & Hp6 & Ha6).
+      destruct (Z.eqb_spec (ret_amt - take) 0) as [E0|Hne2].
+      + apply ret_ok in E5. destruct E5 as (-> & _). split; [|auto].
+        intros d'. rewrite Hb6. destruct (d' =? _); lia.
+      + assert (Howner6 : c_addr cA <> CLP_MODULE) by exact Howner.
+        destruct (bank_out_effect _ _ _ _ _ _ E5 Howner6) as (_ & Hb5 & Hp5 & Ha5).
+        split; [|split; congruence]. intros d'. rewrite Hb5, Hb6. destruct (d' =? _); lia. }
+  destruct Hpay as (Hb5 & Hp5 & Ha5).
+  pm H as c6 u6 E6. apply upd_pool_ok in E6. destruct E6 as (p & Hp & ->).
+  pm H as c7 u7 E7. apply destroy_mtp_gap in E7. apply set_pool_gap in H.
+  eapply gap_eq_trans; [|eapply gap_eq_trans; [exact E7|exact H]].
+  assert (Hane : c_asset c <> ROWAN) by apply Hon.
+  rewrite Hp5 in Hp. cbn [c_mtp c_pool cA] in Hp.
+  unfold gap_eq, Gn, Ge. cbn -[bal Z.eqb]. rewrite Ha5, !Hb5. cbn -[bal Z.eqb].
+  destruct Hon as (_ & [(Hc1 & Hc2)|(Hc1 & Hc2)]).
+  - rewrite Hc1 in *. rewrite Z.eqb_refl in Hp. repeat inv1 Hp. uints. subst. cbn -[bal Z.eqb].
+    destruct (Z.eqb_spec ROWAN ROWAN); [|congruence]. destruct (Z.eqb_spec (c_asset c) ROWAN); [congruence|].
+    split; [lia|]. split; [lia|]. split; [reflexivity|].
+    intros d Hd1 Hd2. rewrite Hb5. destruct (Z.eqb_spec d ROWAN); [congruence|]. cbn -[bal Z.eqb]. lia.
+  - rewrite Hc2 in *. destruct (Z.eqb_spec (c_asset c) ROWAN); [congruence|]. repeat inv1 Hp. uints. subst.
+    assert (E1 : (ROWAN =? c_asset c) = false) by (apply Z.eqb_neq; congruence).
+    cbn -[bal Z.eqb]. rewrite ?E1, ?Z.eqb_refl.
+    split; [lia|]. split; [lia|]. split; [reflexivity|].
+    intros d Hd1 Hd2. rewrite Hb5. destruct (Z.eqb_spec d (c_asset c)); [congruence|]. cbn -[bal Z.eqb]. lia.
+Qed.
+
+Definition funds_not_module (s : mstate) : Prop :=
+  mp_incr_fund (ms_params s) <> CLP_MODULE /\ mp_fc_fund (ms_params s) <> CLP_MODULE.
+
+Lemma closing_tail_gap {A} tf (k : Z -> A) c c' x :
+  (take_out_custody ;;; c1 <-- getc ;;
+   r <-- lift (clp_swap (c_s c1) (c_asset c1) (m_cust_amt (c_mtp c1)) (m_coll_asset (c_mtp c1)) (c_pool c1)) ;;
+   repay r tf ;;; ret (k r))%pm c = (c', Ok x) ->
+  on_pool (c_asset c) (c_mtp c) -> mp_fc_fund (ms_params (c_s c)) <> CLP_MODULE -> c_addr c <> CLP_MODULE -> gap_eq c c'.
+Proof.
+  intros H Hon Hf Ho. pm H as c1 u1 E1.
+  pose proof (custody_move_gap true _ _ _ E1) as G1.
+  assert (S1 : stable c c1).
+  { unfold take_out_custody in E1. pmg E1. pm E1 as cx ux Ex. apply upd_pool_ok in Ex. destruct Ex as (px & _ & ->).
+    apply set_pool_ok in E1. subst. unfold stable. cbn. auto. }
+  destruct S1 as (M1 & M2 & Ka & Kaddr & Kp).
+  pmg H. pm H as c2 r E2. apply lift_ok in E2. destruct E2 as (-> & _).
+  pm H as c3 u3 E3. apply ret_ok in H. destruct H as (-> & _).
+  apply repay_gap in E3; [|unfold on_pool in *; rewrite M1, M2, Ka; exact Hon|rewrite Kp; exact Hf|rewrite Kaddr; exact Ho].
+  eapply gap_eq_trans; eassumption.
+Qed.
+
+Lemma close_long_gap c c' r :
+  close_long c = (c', Ok r) -> on_pool (c_asset c) (c_mtp c) -> (epoch_position (c_s c) <> 0 -> interest_hyps c) ->
+  Link true true c -> funds_not_module (c_s c) -> c_addr c <> CLP_MODULE -> gap_eq c c'.
+Proof.
+  unfold close_long. intros H Hon Hh L (Hf1 & Hf2) Ho. pm H as c1 u1 E1.
+  pose proof (mid_epoch_ok _ _ _ true E1 Hh L) as HK. pose proof (keeps_stable _ _ _ HK) as (M1 & M2 & Ka & Kaddr & Kp).
+  pose proof (mid_epoch_gap _ _ _ E1 Hon Hf1) as G1.
+  apply (closing_tail_gap false (fun r => r)) in H; [|eapply keeps_on_pool; eassumption|rewrite Kp; exact Hf2|rewrite Kaddr; exact Ho].
+  eapply gap_eq_trans; eassumption.
+Qed.
+
+Lemma force_close_long_gap adm tf c c' r :
+  force_close_long adm tf c = (c', Ok r) -> on_pool (c_asset c) (c_mtp c) -> (epoch_position (c_s c) <> 0 -> interest_hyps c) ->
+  Link true true c -> funds_not_module (c_s c) -> c_addr c <> CLP_MODULE -> gap_eq c c'.
+Proof.
+  unfold force_close_long. intros H Hon Hh L (Hf1 & Hf2) Ho. pm H as c1 u1 E1.
+  pose proof (mid_epoch_ok _ _ _ true E1 Hh L) as HK. pose proof (keeps_stable _ _ _ HK) as (M1 & M2 & Ka & Kaddr & Kp).
+  pose proof (mid_epoch_gap _ _ _ E1 Hon Hf1) as G1.
+  pmg H. destruct (negb adm && _); [exfalso; unfold lift in H; inversion H|].
+  apply (closing_tail_gap tf (fun r => (r, m_health (c_mtp c1)))) in H; [|eapply keeps_on_pool; eassumption|rewrite Kp; exact Hf2|rewrite Kaddr; exact Ho].
+  eapply gap_eq_trans; eassumption.
+Qed.
+
+Lemma process_interest_gap c c' u :
+  process_interest c = (c', Ok u) -> on_pool (c_asset c) (c_mtp c) -> mp_incr_fund (ms_params (c_s c)) <> CLP_MODULE -> gap_eq c c'.
+Proof.
+  unfold process_interest. intros H Hon Hf. pmg H.
+  pm H as c1 h E1. apply lift_ok in E1. destruct E1 as (-> & _).
+  pm H as c2 u2 E2. apply upd_mtp_ok in E2. destruct E2 as (m2 & Em2 & ->). injection Em2 as <-.
+  pmg H. pm H as c3 i E3. apply lift_ok in E3. destruct E3 as (-> & _).
+  pm H as c4 fin E4. apply handle_interest_gap in E4; [|exact Hon|exact Hf].
+  pm H as c5 u5 E5. apply add_block_interest_gap in E5. apply set_mtp_gap in H.
+  eapply gap_eq_trans; [|eapply gap_eq_trans; [exact E4|eapply gap_eq_trans; eassumption]].
+  apply gap_eq_same; reflexivity.
+Qed.
+
+(* C01 for the begin blocker's per-position step: whatever the outcome, the module account's coins beyond what the
+   (in-memory) pool records are unchanged *)
+Theorem process_mtp_gap a s p m addr id c' o :
+  process_mtp (mkCtx s p m a addr id) = (c', o) ->
+  epoch_position s = 0 -> LoopInv a s p -> find_mtp s addr id = Some m -> on_pool a m -> id <> 0 -> pct_ok s ->
+  0 <= m_cust_amt m <= bal (ms_bank s) CLP_MODULE (m_cust_asset m) ->
+  funds_not_module s -> addr <> CLP_MODULE ->
+  gap_eq (mkCtx s p m a addr id) c'.
+Proof.
+  intros H Hep HL Hf Hon Hid Hp Hfunds (Hf1 & Hf2) Ho.
+  set (c := mkCtx s p m a addr id) in *.
+  assert (Hh : interest_hyps c).
+  { unfold interest_hyps, c; cbn. split; [exact Hon|]. split; [exact Hid|]. split; [exact Hp|exact Hfunds]. }
+  assert (L : Link true true c) by (apply link_of_agrees; [exact (proj1 HL)|exact Hf]).
+  unfold process_mtp in H.
+  destruct (process_interest c) as [cA oA] eqn:EA.
+  destruct oA as [uA|e|]; [|injection H as <- <-; apply gap_eq_refl|injection H as <- <-; apply gap_eq_refl].
+  pose proof (process_interest_ok _ _ _ EA Hh L) as HK.
+  pose proof (process_interest_gap _ _ _ EA Hon Hf1) as GA.
+  destruct (force_close_long false true cA) as [cF oF] eqn:EF.
+  destruct oF as [r|e|]; [|injection H as <- <-; exact GA|injection H as <- <-; apply gap_eq_refl].
+  injection H as <- <-.
+  pose proof HK as (LA & KA & _ & _). pose proof (keeps_stable _ _ _ HK) as (M1 & M2 & Ka & Kaddr & Kp).
+  pose proof KA as (_&_&_&_&_&_&Kp'&Kh&_). cbn in Kp', Kh.
+  assert (HepA : epoch_position (c_s cA) = 0) by (unfold epoch_position in *; rewrite Kp', Kh; exact Hep).
+  eapply gap_eq_trans; [exact GA|].
+  eapply force_close_long_gap; [exact EF|eapply keeps_on_pool; eassumption|intros Hc; exfalso; exact (Hc HepA)|exact LA| |].
+  - unfold funds_not_module. rewrite Kp. auto.
+  - rewrite Kaddr. exact Ho.
+Qed.
+
+(* C01 for Close and AdminClose *)
+Theorem close_gap s signer id c' r :
+  SumInv s -> pct_ok s -> (forall m, find_mtp s signer id = Some m -> position_ok s signer id m) ->
+  funds_not_module s -> signer <> CLP_MODULE ->
+  close_msg s signer id = (c', Ok r) ->
+  exists pool m, find_mtp s signer id = Some m /\ get (pool_asset_of m) (ms_pools s) = Some pool /\
+    gap_eq (mkCtx s pool m (pool_asset_of m) signer id) c'.
+Proof.
+  intros HI Hp Hpos Hfm Ho H. unfold close_msg in H.
+  destruct (find_mtp s signer id) as [m|] eqn:Hf; [|inversion H].
+  destruct (get (pool_asset_of m) (ms_pools s)) as [pool|] eqn:Hg; [|inversion H].
+  destruct (Hpos m eq_refl) as (Hon & Hid & Hfunds).
+  assert (Ha : pool_asset_of m <> ROWAN) by apply Hon.
+  pose proof (link_of_agrees s _ pool m signer id (proj1 HI _ _ Hg Ha) Hf) as L.
+  assert (Hh : interest_hyps (mkCtx s pool m (pool_asset_of m) signer id)) by (unfold interest_hyps; cbn; auto).
+  exists pool, m. split; [reflexivity|]. split; [exact Hg|].
+  eapply close_long_gap; [exact H|exact Hon|intros _; exact Hh|exact L|exact Hfm|exact Ho].
+Qed.
+
+Theorem admin_close_gap s adm addr id tf c' r :
+  SumInv s -> pct_ok s -> (forall m, find_mtp s addr id = Some m -> position_ok s addr id m) ->
+  funds_not_module s -> addr <> CLP_MODULE ->
+  admin_close_msg s adm addr id tf = (c', Ok r) ->
+  exists pool m, find_mtp s addr id = Some m /\ get (pool_asset_of m) (ms_pools s) = Some pool /\
+    gap_eq (mkCtx s pool m (pool_asset_of m) addr id) c'.
+Proof.
+  intros HI Hp Hpos Hfm Ho H. unfold admin_close_msg in H.
+  destruct adm; cbn [negb] in H; [|inversion H].
+  destruct (find_mtp s addr id) as [m|] eqn:Hf; [|inversion H].
+  destruct (get (pool_asset_of m) (ms_pools s)) as [pool|] eqn:Hg; [|inversion H].
+  destruct (Hpos m eq_refl) as (Hon & Hid & Hfunds).
+  assert (Ha : pool_asset_of m <> ROWAN) by apply Hon.
+  pose proof (link_of_agrees s _ pool m addr id (proj1 HI _ _ Hg Ha) Hf) as L.
+  assert (Hh : interest_hyps (mkCtx s pool m (pool_asset_of m) addr id)) by (unfold interest_hyps; cbn; auto).
+  exists pool, m. split; [reflexivity|]. split; [exact Hg|].
+  eapply force_close_long_gap; [exact H|exact Hon|intros _; exact Hh|exact L|exact Hfm|exact Ho].
+Qed.
+
+Lemma bank_in_effect from d x c c' u : bank_send from CLP_MODULE d x c = (c', Ok u) -> from <> CLP_MODULE ->
+  0 <= x /\ (forall d', bal (ms_bank (c_s c')) CLP_MODULE d' = bal (ms_bank (c_s c)) CLP_MODULE d' + (if d' =? d then x else 0)) /\
+  c_pool c' = c_pool c /\ c_asset c' = c_asset c.
+Proof.
+  intros H Hfrom. apply bank_send_ok in H. destruct H as (b & Hs & ->). apply send_effect in Hs. destruct Hs as (Hx & Hb & _).
+  split; [exact Hx|]. split; [|split; reflexivity].
+  intros d'. cbn -[bal]. rewrite Hb. rewrite Z.eqb_refl. destruct (Z.eqb_spec CLP_MODULE from); [congruence|]. cbn [andb].
+  destruct (d' =? d); lia.
+Qed.
+
+Lemma borrow_fn_gap coll_amt cust_amt eta c c' u :
+  borrow_fn coll_amt cust_amt eta c = (c', Ok u) -> on_pool (c_asset c) (c_mtp c) -> c_addr c <> CLP_MODULE -> gap_eq c c'.
+Proof.
+  unfold borrow_fn. intros H Hon Ho. pmg H.
+  pm H as c1 u1 E1. assert (c1 = c) by (destruct (_ <? _); [exfalso; eapply failM_not_ok; eassumption|apply ret_ok in E1; tauto]). subst c1.
+  pm H as c2 liab_add E2. apply lift_ok in E2. destruct E2 as (-> & _).
+  pm H as c3 u3 E3. apply upd_mtp_ok in E3. destruct E3 as (m3 & _ & ->).
+  pmg H. pm H as c4 h E4. apply lift_ok in E4. destruct E4 as (-> & _).
+  pm H as c5 u5 E5. apply upd_mtp_ok in E5. destruct E5 as (m5 & _ & ->).
+  pm H as c6 u6 E6. destruct (bank_in_effect _ _ _ _ _ _ E6 Ho) as (Hx & Hb6 & Hp6 & Ha6).
+  pmg H. pm H as c7 u7 E7. apply upd_pool_ok in E7. destruct E7 as (p7 & Hp7 & ->).
+  pm H as c8 u8 E8. apply set_pool_gap in E8. apply set_mtp_gap in H.
+  eapply gap_eq_trans; [|eapply gap_eq_trans; [exact E8|exact H]].
+  assert (Hane : c_asset c <> ROWAN) by apply Hon.
+  cbn -[bal Z.eqb] in Hb6, Hp6, Ha6. rewrite Hp6 in Hp7. cbn -[bal Z.eqb] in Hp7.
+  unfold gap_eq, Gn, Ge. cbn -[bal Z.eqb]. rewrite Ha6, !Hb6.
+  destruct Hon as (_ & [(Hc1 & Hc2)|(Hc1 & Hc2)]).
+  - rewrite Hc1 in *. rewrite Z.eqb_refl in Hp7. repeat inv1 Hp7. uints. subst. cbn -[bal Z.eqb].
+    assert (Eq1 : (c_asset c =? ROWAN) = false) by (apply Z.eqb_neq; congruence). rewrite Eq1, Z.eqb_refl.
+    split; [lia|]. split; [lia|]. split; [reflexivity|].
+    intros d Hd1 Hd2. rewrite Hb6. destruct (Z.eqb_spec d ROWAN); [congruence|]. lia.
+  - rewrite Hc2 in *. destruct (Z.eqb_spec (c_asset c) ROWAN); [congruence|]. repeat inv1 Hp7. uints. subst. cbn -[bal Z.eqb].
+    assert (Eq1 : (ROWAN =? c_asset c) = false) by (apply Z.eqb_neq; congruence). rewrite Eq1, Z.eqb_refl.
+    split; [lia|]. split; [lia|]. split; [reflexivity|].
+    intros d Hd1 Hd2. rewrite Hb6. destruct (Z.eqb_spec d (c_asset c)); [congruence|]. lia.
+Qed.
+
+(* C01 for Open *)
+Theorem open_gap s hl signer coll borrow amt lev c' u :
+  signer <> CLP_MODULE ->
+  open_msg s hl signer coll borrow amt lev = (c', Ok u) ->
+  let a := if coll =? ROWAN then borrow else coll in
+  exists pool, get a (ms_pools s) = Some pool /\
+    gap_eq (mkCtx s pool (new_mtp coll borrow (Z.min lev (mp_lev_max (ms_params s)))) a signer 0) c'.
+Proof.
+  intros Ho H a. unfold open_msg in H.
+  destruct (mp_whitelisting (ms_params s) && negb (mem signer (ms_whitelist s))); [inversion H|].
+  destruct (mp_max_open (ms_params s) <=? ms_open s); [inversion H|].
+  fold a in H. destruct (get a (ms_pools s)) as [pool|] eqn:Hg; [|inversion H].
+  destruct (negb (mem a (mp_pools (ms_params s))) || mem a (mp_closed (ms_params s))); [inversion H|].
+  destruct hl; [inversion H|].
+  destruct (Bool.eqb (coll =? ROWAN) (borrow =? ROWAN)) eqn:Ex; [inversion H|].
+  exists pool. split; [reflexivity|].
+  set (lv := Z.min lev (mp_lev_max (ms_params s))) in *.
+  set (c1 := mkCtx s pool (new_mtp coll borrow lv) a signer 0) in *.
+  assert (Hon : on_pool a (new_mtp coll borrow lv)).
+  { unfold on_pool, new_mtp, a. cbn. destruct (Z.eqb_spec coll ROWAN) as [->|Hc]; destruct (Z.eqb_spec borrow ROWAN) as [->|Hb]; cbn in Ex; try discriminate.
+    - split; [exact Hb|]. left. auto.
+    - split; [exact Hc|]. right. auto. }
+  destruct (negb (mp_rowan_coll (ms_params s)) && (coll =? ROWAN)); [exfalso; eapply failM_not_ok; eassumption|].
+  pm H as c2 lamt E2. apply lift_ok in E2. destruct E2 as (-> & _).
+  pm H as c3 u3 E3. assert (c3 = c1) by (destruct (_ <? lamt); [exfalso; eapply failM_not_ok; eassumption|apply ret_ok in E3; tauto]). subst c3.
+  pm H as c4 u4 E4. apply lift_ok in E4. destruct E4 as (-> & _).
+  pm H as c5 cust E5. apply lift_ok in E5. destruct E5 as (-> & _).
+  pm H as c6 u6 E6. assert (c6 = c1) by (destruct (_ <? cust); [exfalso; eapply failM_not_ok; eassumption|apply ret_ok in E6; tauto]). subst c6.
+  pm H as c7 u7 E7. apply borrow_fn_gap in E7; [|exact Hon|exact Ho].
+  pm H as c8 u8 E8. apply set_pool_gap in E8.
+  pm H as c9 u9 E9. pose proof (custody_move_gap false _ _ _ E9) as G9.
+  pmg H. pm H as c10 lr E10. apply lift_ok in E10. destruct E10 as (-> & _).
+  destruct (lr <=? mp_safety (ms_params s)); [exfalso; eapply failM_not_ok; eassumption|].
+  apply ret_ok in H. destruct H as (-> & _).
+  eapply gap_eq_trans; [exact E7|]. eapply gap_eq_trans; [exact E8|exact G9].
+Qed.
